@@ -154,19 +154,7 @@ func p11CornerFiles() []*ir.File {
 
 // ---------------------------------------------------------------------------
 
-var (
-	p11ReObjText = regexp.MustCompile(`^TEXT (\S+)\(SB\)`)
-	p11ReObjLine = regexp.MustCompile(`^\s+\S+:(\d+)\s+0x([0-9a-f]+)\s+([0-9a-f]+)\s+(.*)$`)
-	p11ReTarget  = regexp.MustCompile(`\b0x([0-9a-f]+)\s*$`)
-	p11ReUndef   = regexp.MustCompile(`undefined label (\S+)`)
-)
-
-type p11AsmProg struct {
-	file *ir.File
-	// nonBranchRefs: label → opcodes of non-branch instructions that reference it
-	// with a LabelRef operand (taken before pass.Compile).
-	nonBranchRefs map[string][]string
-}
+var p11ReUndef = regexp.MustCompile(`undefined label (\S+)`)
 
 // asmInstrs: constructors whose output the Go assembler accepts with
 // physical registers.
@@ -315,12 +303,9 @@ func p11GenAsmProgram(r *rng, st map[string]int, witnessF10 bool) *build.Context
 			ctx.Attributes(attr.NOSPLIT | attr.NOFRAME)
 		}
 		ctx.SignatureExpr(pick(r, p11SigPool[:7]))
-		frame := false
 		if r.chance(1, 3) {
 			ctx.AllocLocal(8 * r.rangeIn(1, 40))
-			frame = true
 		}
-		_ = frame
 		if witnessF10 && k == 0 {
 			// F10: a label referenced only by CALL
 			ctx.XORL(reg.EAX, reg.EAX)
@@ -331,7 +316,7 @@ func p11GenAsmProgram(r *rng, st map[string]int, witnessF10 bool) *build.Context
 			ctx.RET()
 			continue
 		}
-		if r.chance(1, 200) {
+		if r.chance(1, 1000) {
 			ctx.CALL(operand.LabelRef("sub"))
 			ctx.RET()
 			ctx.Label("sub")
@@ -369,6 +354,7 @@ type p11Sym struct {
 	name    string
 	flags   string
 	size    int
+	locals  int
 	argsize int
 	progs   []p11Prog
 	code    []byte
@@ -398,7 +384,8 @@ func p11ParseListing(out string) []p11Sym {
 			if err != nil || as > 1<<31 {
 				as = -1 // ArgsSizeUnknown: the TEXT line has no "-args" part
 			}
-			syms = append(syms, p11Sym{name: name, flags: m[2], size: size, argsize: int(as)})
+			locals, _ := strconv.ParseInt(m[5], 16, 64)
+			syms = append(syms, p11Sym{name: name, flags: m[2], size: size, argsize: int(as), locals: int(locals)})
 			intext = true
 			continue
 		}
@@ -553,6 +540,7 @@ func p11RunC11Asm(args []string) error {
 			}
 			a.str(s.name)
 			a.int(s.argsize)
+			a.int(s.locals)
 			a.add(p11B01(strings.Contains(s.flags, "nosplit")))
 			var ents []string
 			nent := 0
